@@ -217,6 +217,9 @@ fn i_actions(len: usize, w: usize, pattern: u64, thorough: bool) -> Vec<IAct> {
         if n != len {
             a.push(IAct::Resize(n, !0));
             a.push(IAct::Resize(n, 0));
+            if w < 64 {
+                a.push(IAct::Resize(n, 1u64 << w)); // non-zero, but zero within the item width
+            }
             if thorough {
                 a.push(IAct::Resize(n, pattern));
             }
